@@ -724,13 +724,13 @@ Qed.
 
 (* the kernel on a canonical pruned 2-d array (reduce axis first, non-empty) *)
 Lemma arg_kernel_step (xr : coo Z) (N Q : Z) (maxm : bool) :
-  canonical Z xr -> prunedb Z.eqb xr = true -> c_shape xr = [N; Q] -> 0 < N ->
+  canonical Z xr -> c_shape xr = [N; Q] -> 0 < N ->
   let r := minmax_args (map (fun ix => znth ix 0) (c_coords xr)) (map (fun ix => znth ix 1) (c_coords xr))
                        (c_data xr) N (c_fill xr) maxm in
   StronglySorted Z.lt (fst r) /\ Forall (fun i => 0 <= i < Q) (fst r) /\ length (snd r) = length (fst r)
   /\ forall k, arg_result r k = np_argbest maxm (col2 xr N k).
 Proof.
-  intros Hc Hp Hsh HN. destruct xr as [sh cs data fill]. cbn [c_shape c_coords c_data c_fill] in *. subst sh.
+  intros Hc Hsh HN. destruct xr as [sh cs data fill]. cbn [c_shape c_coords c_data c_fill] in *. subst sh.
   pose proof Hc as [Hr _]. cbn [c_shape c_coords] in Hr.
   set (rc := map (fun ix => znth ix 0) cs). set (ic := map (fun ix => znth ix 1) cs).
   assert (Hz : zip2 rc ic = cs) by (apply (zip2_cols N Q); assumption).
@@ -741,13 +741,13 @@ Proof.
     unfold ic in Hi. apply in_map_iff in Hi. destruct Hi as [ix [<- Hix]]. rewrite Forall_forall in Hr.
     specialize (Hr _ Hix). destruct ix as [|u [|v [|w t]]]; cbn in Hr; try tauto; try (unfold znth; cbn; lia). }
   split; [unfold minmax_args; cbn [fst snd]; apply map_length|].
-  intros k. rewrite <- Hz in Hc, Hp.
-  pose proof (argminmax_first_proof rc ic data N Q fill maxm Hlen HN Hc Hp k) as Hfb.
+  intros k. rewrite <- Hz in Hc.
+  pose proof (argminmax_first_proof rc ic data N Q fill maxm Hlen HN Hc k) as Hfb.
   apply first_best_np in Hfb. rewrite Hz in Hfb. exact Hfb.
 Qed.
 
 Lemma arg_core_ge2_proof (maxm : bool) (x : coo Z) (a : nat) :
-  canonical Z x -> prunedb Z.eqb x = true -> shape_ok (c_shape x) ->
+  canonical Z x -> shape_ok (c_shape x) ->
   (a < length (c_shape x))%nat -> 0 < nth a (c_shape x) 0 ->
   let rs := remove_nth (c_shape x) a in
   exists r2, arg_core maxm x (Z.of_nat a) = Ok r2
@@ -755,7 +755,7 @@ Lemma arg_core_ge2_proof (maxm : bool) (x : coo Z) (a : nat) :
     /\ forall o, in_range rs o ->
          den r2 (ins a 0 o) = np_argbest maxm (map (fun i => den x (ins a i o)) (zrange (nth a (c_shape x) 0))).
 Proof.
-  intros Hc Hp Hok Ha HN rs.
+  intros Hc Hok Ha HN rs.
   remember (c_shape x) as sh eqn:Esh. set (n := length sh) in *.
   set (N := nth a sh 0) in *. set (Q := size rs).
   assert (Hrs : shape_ok rs) by (apply shape_ok_remove; assumption).
@@ -777,14 +777,13 @@ Proof.
     apply ins_mvl. rewrite (in_range_length _ _ Hr). exact Ha. }
   set (x1 := ss_transpose x ax1) in *.
   rewrite <- Esh in Hsh1, Hd1. rewrite (Hmap1 sh eq_refl) in Hsh1. unfold mvf in Hsh1. fold N rs in Hsh1.
-  specialize (Hp1 Hp).
   assert (Hok1 : shape_ok (N :: rs)) by (constructor; [lia|assumption]).
   assert (Hok2 : shape_ok [N; Q]) by (constructor; [lia|constructor; [assumption|constructor]]).
   destruct (reshape_step x1 [N; Q]) as [x2 [Ex2 [Hc2 [Hsh2 [Hf2 [Hp2 Hd2]]]]]]; try assumption;
     try (rewrite Hsh1; assumption).
   { rewrite Hsh1. cbn [size fold_right]. fold (size rs). fold Q. lia. }
-  rewrite Ex2. cbn [bind]. specialize (Hp2 Hp1).
-  pose proof (arg_kernel_step x2 N Q maxm Hc2 Hp2 Hsh2 HN) as Hk. cbv zeta in Hk.
+  rewrite Ex2. cbn [bind].
+  pose proof (arg_kernel_step x2 N Q maxm Hc2 Hsh2 HN) as Hk. cbv zeta in Hk.
   destruct (minmax_args (map (fun ix => znth ix 0) (c_coords x2)) (map (fun ix => znth ix 1) (c_coords x2))
                         (c_data x2) N (c_fill x2) maxm) as [ri rd] eqn:Ek.
   cbn [fst snd] in Hk. destruct Hk as [Hss [Hbd [Hlen Hres]]].
@@ -842,7 +841,7 @@ Proof.
 Qed.
 
 Lemma argminmax_nd_ge2_proof (maxm kd : bool) (x : coo Z) (axis : Z) (a : nat) :
-  canonical Z x -> prunedb Z.eqb x = true -> shape_ok (c_shape x) -> (2 <= length (c_shape x))%nat ->
+  canonical Z x -> shape_ok (c_shape x) -> (2 <= length (c_shape x))%nat ->
   NpSort.norm_axis (ndimZ x) axis = Some a -> 0 < nth a (c_shape x) 0 ->
   let rs := remove_nth (c_shape x) a in
   exists z, ss_argminmax maxm x (Some axis) kd = Ok z
@@ -851,9 +850,9 @@ Lemma argminmax_nd_ge2_proof (maxm kd : bool) (x : coo Z) (axis : Z) (a : nat) :
          den z (if kd then ins a 0 o else o)
          = np_argbest maxm (map (fun i => den x (ins a i o)) (zrange (nth a (c_shape x) 0))).
 Proof.
-  intros Hc Hp Hok Hnd Hn HN rs.
+  intros Hc Hok Hnd Hn HN rs.
   assert (Ha : (a < length (c_shape x))%nat) by (apply (norm_axis_Some _ axis); exact Hn).
-  destruct (arg_core_ge2_proof maxm x a Hc Hp Hok Ha HN) as [r2 [Ecore [Hshr2 [Hcr2 Hval]]]]. fold rs in Hshr2, Hval.
+  destruct (arg_core_ge2_proof maxm x a Hc Hok Ha HN) as [r2 [Ecore [Hshr2 [Hcr2 Hval]]]]. fold rs in Hshr2, Hval.
   assert (Hrsl : length rs = (length (c_shape x) - 1)%nat) by (apply remove_nth_length; assumption).
   unfold ss_argminmax.
   assert (E0 : (ndimZ x <=? axis) = false).
@@ -1004,15 +1003,15 @@ Qed.
 (* ---- argmax / argmin of a 1-d array (axis 0 or -1) *)
 Lemma argminmax_1d_proof (maxm kd : bool) (n axis : Z) (cs : list idx) (data : list Z) (fill : Z) :
   (axis = 0 \/ axis = -1) -> 0 < n ->
-  canonical Z (mkCOO [n] cs data fill) -> prunedb Z.eqb (mkCOO [n] cs data fill) = true ->
+  canonical Z (mkCOO [n] cs data fill) ->
   exists z, ss_argminmax maxm (mkCOO [n] cs data fill) (Some axis) kd = Ok z
     /\ c_shape z = (if kd then [1] else []) /\ canonical Z z
     /\ den z (if kd then [0] else []) = np_argbest maxm (flat1 (mkCOO [n] cs data fill) n).
 Proof.
-  intros Hax Hn Hc Hp. set (x := mkCOO [n] cs data fill) in *.
-  destruct (newaxis_back_step x Hc) as [Hc' [Hsh' [Hf' [Hp' Hd']]]]. specialize (Hp' Hp).
+  intros Hax Hn Hc. set (x := mkCOO [n] cs data fill) in *.
+  destruct (newaxis_back_step x Hc) as [Hc' [Hsh' [Hf' [_ Hd']]]].
   set (x' := newaxis_back x) in *. change (c_shape x ++ [1]) with [n; 1] in Hsh'.
-  destruct (arg_core_ge2_proof maxm x' 0 Hc' Hp') as [r2 [Ecore [Hshr2 [Hcr2 Hval]]]];
+  destruct (arg_core_ge2_proof maxm x' 0 Hc') as [r2 [Ecore [Hshr2 [Hcr2 Hval]]]];
     try (rewrite Hsh'; cbn; lia).
   { rewrite Hsh'. constructor; [lia|constructor; [lia|constructor]]. }
   change (Z.of_nat 0) with 0 in Ecore.
@@ -1048,7 +1047,7 @@ Qed.
 
 (* ---- argmax / argmin with axis=None: the index of the extremum of the flattened array *)
 Lemma argminmax_none_proof (maxm kd : bool) (x : coo Z) :
-  canonical Z x -> prunedb Z.eqb x = true -> shape_ok (c_shape x) -> (1 <= length (c_shape x))%nat ->
+  canonical Z x -> shape_ok (c_shape x) -> (1 <= length (c_shape x))%nat ->
   0 < size (c_shape x) ->
   let nd := length (c_shape x) in
   exists z, ss_argminmax maxm x None kd = Ok z
@@ -1056,12 +1055,11 @@ Lemma argminmax_none_proof (maxm kd : bool) (x : coo Z) :
     /\ den z (if kd then zeros nd else [])
        = np_argbest maxm (map (fun i => den x (unravel (c_shape x) i)) (zrange (size (c_shape x)))).
 Proof.
-  intros Hc Hp Hok Hnd HS nd. set (S := size (c_shape x)) in *.
+  intros Hc Hok Hnd HS nd. set (S := size (c_shape x)) in *.
   destruct (flatten_step x Hc Hok) as [xf [Exf [Hcf [Hshf [Hff [Hpf Hdf]]]]]]. fold S in Hshf, Hdf.
-  specialize (Hpf Hp).
-  destruct (newaxis_back_step xf Hcf) as [Hc' [Hsh' [Hf' [Hp' Hd']]]]. specialize (Hp' Hpf).
+  destruct (newaxis_back_step xf Hcf) as [Hc' [Hsh' [Hf' [_ Hd']]]].
   set (x' := newaxis_back xf) in *. rewrite Hshf in Hsh', Hd'. change ([S] ++ [1]) with [S; 1] in Hsh'.
-  destruct (arg_core_ge2_proof maxm x' 0 Hc' Hp') as [r2 [Ecore [Hshr2 [Hcr2 Hval]]]];
+  destruct (arg_core_ge2_proof maxm x' 0 Hc') as [r2 [Ecore [Hshr2 [Hcr2 Hval]]]];
     try (rewrite Hsh'; cbn; lia).
   { rewrite Hsh'. constructor; [lia|constructor; [lia|constructor]]. }
   change (Z.of_nat 0) with 0 in Ecore.
@@ -1125,9 +1123,7 @@ Lemma wrapper_sources_pinned_proof :
 Proof. repeat split; reflexivity. Qed.
 
 (* ================================================================== G. the axis normalisation used by the model is
-   the GENERATED fragment of _utils.normalize_axis (Gen/G_shapeops.v, through agent-c08's
-   normalize_axis_spec) *)
-From Verif Require Import NpShapeOps ShapeOpsP.
+   the GENERATED fragment of _utils.normalize_axis (Gen/G_shapeops.v, called through ShapeOps.norm_axis) *)
 
 Lemma norm_axis_generated_proof (nd a : Z) :
   0 <= nd ->
@@ -1136,9 +1132,18 @@ Lemma norm_axis_generated_proof (nd a : Z) :
   | None => ShapeOps.norm_axis nd a = Raise ValueError
   end.
 Proof.
-  intros Hnd. rewrite (normalize_axis_spec_proof nd a Hnd). unfold NpSort.norm_axis, np_normalize_axis.
-  destruct (Z.leb_spec (- nd) a); [|reflexivity]. destruct (Z.ltb_spec a nd); [|reflexivity]. cbn [andb].
-  f_equal. destruct (Z.ltb_spec a 0).
-  - rewrite Z2Nat.id by lia. rewrite <- (Z.mod_add a 1 nd) by lia. rewrite Z.mod_small; lia.
-  - rewrite Z2Nat.id by lia. rewrite Z.mod_small; lia.
+  intros Hnd. unfold NpSort.norm_axis, ShapeOps.norm_axis, G_shapeops.g_normalize_axis_int.
+  cbn [py_int as_int bind py_lt ordcmp cond truthy].
+  destruct (Z.ltb_spec a 0) as [Hneg|Hpos]; cbn [bind py_add arith as_int py_ge py_lt ordcmp cond truthy].
+  - rewrite Z.geb_leb. destruct (Z.leb_spec nd (a + nd)) as [H1|H1]; cbn [bind cond truthy py_lt ordcmp as_int].
+    + exfalso. lia.
+    + destruct (Z.ltb_spec (a + nd) 0) as [H2|H2]; cbn [cond truthy].
+      * destruct (Z.leb_spec (- nd) a); [lia|]. reflexivity.
+      * destruct (Z.leb_spec (- nd) a); [|lia]. destruct (Z.ltb_spec a nd); [|lia]. cbn [andb].
+        rewrite Z2Nat.id by lia. reflexivity.
+  - rewrite Z.geb_leb. destruct (Z.leb_spec nd a) as [H1|H1]; cbn [bind cond truthy py_lt ordcmp as_int].
+    + destruct (Z.leb_spec (- nd) a); [|lia]. destruct (Z.ltb_spec a nd); [lia|]. reflexivity.
+    + destruct (Z.ltb_spec a 0) as [H2|H2]; [lia|]. cbn [cond truthy].
+      destruct (Z.leb_spec (- nd) a); [|lia]. destruct (Z.ltb_spec a nd); [|lia]. cbn [andb].
+      rewrite Z2Nat.id by lia. reflexivity.
 Qed.
